@@ -928,3 +928,39 @@ def rule_update_registrations():
     if len(sites) != 3:
         failing.append(f"{rel(p)}: expected 3 update_at registrations, found {len(sites)}")
     return not failing, sites, failing
+
+
+def rule_names():
+    """C04.S.names: generated variable names are drawn from an iterator that filters out Python keywords and EVERY hinted name, and the set of
+    hinted names is complete before the first name is drawn (it is built from name_hints up front, not while names are handed out)"""
+    tree, p = parse("einx/_src/tracer/compiler/python/__init__.py")
+    fn = find_func(tree, "compile")
+    sites, failing = [], []
+    body = fn.body
+    gens = [(i, st) for i, st in enumerate(body) if isinstance(st, ast.Assign) and isinstance(st.value, ast.GeneratorExp) and ast.unparse(st.targets[0]) == "names"]
+    draws = [n for n in ast.walk(fn) if isinstance(n, ast.Call) and ast.unparse(n) == "next(names)"]
+    if len(gens) != 1 or not draws:
+        return False, [], [f"{rel(p)}: expected `names = (name for name in names() if ...)` and next(names) in compile() (contract unbound)"]
+    i, g = gens[0]
+    cond = " and ".join(ast.unparse(c) for c in g.value.generators[0].ifs)
+    sites.append(f"{rel(p)}:{g.lineno}:names filter `{cond}`")
+    if "keyword.iskeyword(name)" not in cond or "not keyword.iskeyword" not in cond:
+        failing.append(f"{rel(p)}:{g.lineno}: generated names are not filtered against Python keywords")
+    m = [c for c in g.value.generators[0].ifs for q in ast.walk(c) if isinstance(q, ast.Compare) and isinstance(q.ops[0], ast.NotIn)]
+    resv = None
+    for c in g.value.generators[0].ifs:
+        for q in ast.walk(c):
+            if isinstance(q, ast.Compare) and isinstance(q.ops[0], ast.NotIn) and isinstance(q.comparators[0], ast.Name):
+                resv = q.comparators[0].id
+    if resv is None:
+        failing.append(f"{rel(p)}:{g.lineno}: generated names are not filtered against the hinted names")
+    else:
+        defs = [st for st in body[:i] if isinstance(st, ast.Assign) and ast.unparse(st.targets[0]) == resv]
+        okd = defs and "name_hints.values()" in ast.unparse(defs[-1].value)
+        later = [n for st in body[i:] for n in ast.walk(st) if isinstance(n, ast.Call) and isinstance(n.func, ast.Attribute) and root_name(n.func) == resv and n.func.attr in ("add", "update", "discard", "remove")]
+        sites.append(f"{rel(p)}:reserved set `{resv}`")
+        if not okd:
+            failing.append(f"{rel(p)}: the reserved set `{resv}` is not built from all name hints before names are drawn")
+        if later:
+            failing.append(f"{rel(p)}:{later[0].lineno}: the reserved set `{resv}` is still being modified while names are handed out")
+    return not failing, sites, failing
